@@ -37,12 +37,28 @@ inline void call_api(const P& p, const ExecOp& op, const Buf& buf, Stream& st, O
 {
     ctpg::parse_options o;
     o.set_verbose(op.verbose).set_skip_whitespace(op.skip_ws).set_skip_newline(op.skip_nl);
-    if (op.api == API_CONTEXT_PARSE)
+    // with default options the shorter public overloads are used (they forward to the same driver)
+    const bool defaults = !op.verbose && op.skip_ws && op.skip_nl;
+    constexpr bool no_stream = std::is_same_v<Stream, ctpg::utils::no_stream>;
+    if (op.api == API_CONTEXT_PARSE_TEMP)
+    {
+        simrt::set_ctx(nullptr);     // a temporary: confinement is judged by counting, not by address
+        std::optional<std::decay_t<decltype(*p.context_parse(SimCtx{}, o, buf, st))>> r;
+        if (defaults && no_stream) r = p.context_parse(SimCtx{}, buf);
+        else if (defaults) r = p.context_parse(SimCtx{}, buf, st);
+        else r = p.context_parse(SimCtx{}, o, buf, st);
+        simrt::end_op();
+        take_value(r, out);
+    }
+    else if (op.api == API_CONTEXT_PARSE)
     {
         SimCtx ctx;
         simrt::set_ctx(&ctx);
         {
-            auto r = p.context_parse(ctx, o, buf, st);
+            std::optional<std::decay_t<decltype(*p.context_parse(ctx, o, buf, st))>> r;
+            if (defaults && no_stream) r = p.context_parse(ctx, buf);
+            else if (defaults) r = p.context_parse(ctx, buf, st);
+            else r = p.context_parse(ctx, o, buf, st);
             simrt::end_op();
             take_value(r, out);
         }
@@ -50,7 +66,10 @@ inline void call_api(const P& p, const ExecOp& op, const Buf& buf, Stream& st, O
     }
     else
     {
-        auto r = p.parse(o, buf, st);
+        std::optional<std::decay_t<decltype(*p.parse(o, buf, st))>> r;
+        if (defaults && no_stream) r = p.parse(buf);
+        else if (defaults) r = p.parse(buf, st);
+        else r = p.parse(o, buf, st);
         simrt::end_op();
         take_value(r, out);
     }
@@ -123,8 +142,17 @@ inline void with_buffer(const P& p, const ExecOp& op, Outcome& out)
     }
     else if (op.buffer == BUF_VIEW)
     {
-        std::unique_ptr<char[]> blk(new char[n ? n : 1]);
+        // asan flavour: exact-size block (a read past end() hits the redzone). Other flavours: the view is a SUB-RANGE of a
+        // larger text -- what follows it is blank space and more "source"; a library that reads past end() changes its answer
+#ifdef SIM_ASAN
+        static const char trailer[] = "";
+#else
+        static const char trailer[] = " \t\n) 7 ; x } ] \"z\" 1 \n";
+#endif
+        size_t tn = sizeof(trailer) - 1;
+        std::unique_ptr<char[]> blk(new char[n + tn + 1]);
         std::memcpy(blk.get(), op.input.data(), n);
+        std::memcpy(blk.get() + n, trailer, tn);
         simrt::set_buffer(blk.get(), int64_t(n));
         ctpg::buffers::string_view_buffer buf(std::string_view(blk.get(), n));
         with_stream(p, op, buf, out);
